@@ -205,6 +205,23 @@ class Sys(Builder):
             return {'k': 'assign', 'd': d, 'u': u}, [f'{pad}{d[0]} = {self.use_expr(u)}']
         if k == 'ret':
             return {'k': 'ret', 'u': st[1]}, [f'{pad}return {self.use_expr(st[1], "p")}']
+        if k == 'compleak':
+            # a comprehension binds e inside the statement; the statement also reads e outside it: the scoping model sees a plain read
+            _, where, d = st
+            if where == 'assign':
+                return {'k': 'assign', 'd': [d], 'u': ['e']}, [f'{pad}{d} = sum([e for e in range(2)]) + e']
+            if where == 'ret':
+                return {'k': 'ret', 'u': ['e']}, [f'{pad}return sum([e for e in range(2)]) + e + p']
+            if where == 'tuple':
+                return {'k': 'assign', 'd': [d], 'u': ['e']}, [f'{pad}{d} = (len([e for e in range(2)]), e)']
+            raise AssertionError(where)
+        if k == 'callret':
+            # the callee name is a LOCAL (it shadows the module-level function of that name)
+            self.uses_call = True
+            return {'k': 'ret', 'u': [st[1]]}, [f'{pad}return {st[1]}(p)']
+        if k == 'callassign':
+            self.uses_call = True
+            return {'k': 'assign', 'd': [st[1]], 'u': [st[2]]}, [f'{pad}{st[1]} = {st[2]}(p)']
         if k == 'comp':
             _, d, u = st
             return ({'k': 'comp', 'd': [d], 'cv': 'e', 'u': ['e'] + u, 'iu': []}, [f'{pad}{d} = [{self.use_expr(["e"] + u)} for e in range(2)]'])
@@ -283,12 +300,25 @@ def systematic():
     progs.append([('for', [], [], [('if', [], [R0], [R0])])])
     progs.append([('while', [], [('if', [], [A], None), RA]), R0])
     progs.append([('for', [], [], [('if', [], [A], [A]), ('assign', ['b'], ['a'])]), R0])
+    # a comprehension target read outside the comprehension, in the same statement
+    progs.append([('compleak', 'ret', '')])
+    progs.append([('compleak', 'assign', 'b'), ('ret', ['b'])])
+    progs.append([('compleak', 'tuple', 'b'), R0])
+    progs.append([('if', [], [('compleak', 'assign', 'b')], [('assign', ['b'], [])]), ('ret', ['b'])])
+    progs.append([('assign', ['e'], []), ('compleak', 'ret', '')])              # bound before: fine
+    # a name in call position that is a local bound on some paths only (it shadows a module-level function)
+    progs.append([('if', [], [('assign', ['hcall'], [])], None), ('callret', 'hcall')])
+    progs.append([('for', ['hcall'], [], []), ('callret', 'hcall')])
+    progs.append([('callassign', 'b', 'hcall'), ('assign', ['hcall'], []), ('ret', ['b'])])
+    progs.append([('while', [], [('assign', ['hcall'], [])]), ('callassign', 'b', 'hcall'), ('ret', ['b'])])
     out = []
     for pr in progs:
         b = Sys()
+        b.uses_call = False
         _, lines = b.sblock(pr, 1)
         params = ['p'] + [f'{k}{i + 1}' for i, k in enumerate(b.kinds)]
-        text = '\n'.join(['@fp.fpy', 'def {name}(' + ', '.join(x + ': fp.Real' for x in params) + '):'] + lines)
+        head = ['@fp.fpy', 'def hcall(x: fp.Real):', '    return x + 1', ''] if b.uses_call else []
+        text = '\n'.join(head + ['@fp.fpy', 'def {name}(' + ', '.join(x + ': fp.Real' for x in params) + '):'] + lines)
         out.append(({'params': ['p'] + [f'w{i + 1}' for i in range(b.nw)], 'blocks': b.blocks, 'kinds': b.kinds}, text))
     return out
 
